@@ -131,7 +131,10 @@ def run_point(g, n, rnd, force_seg=None):
     from pymemcache import serde as S
     prefix = b"pfx:"
     unicode = g["k"] == "utf8"
-    sd = {"none": None, "custom": CustomSerde() if (n % 2 or g["v"] == "big") else Flag0Serde(), "compressed": S.CompressedSerde(min_compress_len=rnd.choice([0, 1, 10, 400]))}
+    sd = {"none": None, "custom": CustomSerde() if (n % 2 or g["v"] == "big") else Flag0Serde(), "compressed": S.CompressedSerde(min_compress_len=rnd.choice([0, 1, 10, 400])) if (n % 5 or n % 2 == 0 or g["v"] in ("big", "obj", "str", "int")) else
+          # ... or wrapping a serializer of the caller's that knows nothing about the wrapper's own flag bit (values below the
+          # threshold are stored as that serializer made them, with its flags and nothing else)
+          S.CompressedSerde(serde=CustomSerde(), min_compress_len=10 ** 9)}
     sd.update({"p%d" % i: S.PickleSerde(pickle_version=i) for i in range(6)})
     serde = sd[g["serde"]]
     net = fakesock.FakeNet()
@@ -156,6 +159,9 @@ def run_point(g, n, rnd, force_seg=None):
     keymk = KEYS[g["k"]]
     nkeys = 1 if g["fop"] in ("get", "gets", "gat", "gats") and g["sop"] != "set_many" else rnd.choice([2, 3, 5])
     keys = [keymk(i) for i in range(nkeys)]
+    if nkeys > 1 and n % 4 == 0 and g["k"] in ("str", "bytes"):
+        # a caller key whose own text begins with the configured prefix: a different key from its un-prefixed sibling
+        keys.append((prefix.decode() if isinstance(keys[0], str) else prefix) + keys[0])
     vid = 0
     calln = [0]
 
